@@ -48,6 +48,7 @@ TARGETS = [
 BOUNDS = {
     "rules": "two detections d0, d1 from a pool of 14 shapes x 6 condition forms",
     "transformations": "34 instances (field mapping 1:1 / 1:n / keyword->field / prefix mapping / prefix / suffix / scoped, drop item, add_condition plain / negated / template, replace_string (incl. identity), map_string 1:1 / 1:n, case, set_value, convert_type, regex plain, nest, chains, 'matches nothing' instances)",
+    "thorough": "pool of 24 shapes (adds endswith, contains with wildcard, lt, exists, cased, re|i, list of maps with two fields, mixed number/string list, bool, contains|all next to a second field) x 12 condition forms (adds all of, 1 of them, negated quantifier, nested)",
     "outside": "external-source and Jinja-template transformations (C16 covers their gating); values with backslashes before wildcards (open known finding of C05); hashes_fields / extract_fields",
 }
 ASSUMPTIONS = ["dropping the ONLY value of an item (the library then renders the item as a null check) is left unspecified: the drop instance only removes one of several values", "reference rewrites are written from the transformation documentation; the C01 reference semantics evaluates the rewritten source"]
@@ -71,8 +72,32 @@ POOL = [
 CONDS = ["d0", "not d0", "d0 and d1", "d0 or not d1", "not (d0 or d1)", "1 of d*"]
 
 
+# thorough tier (VERIF_X=1): further detection shapes and condition forms
+POOLX = [
+    {"fA|endswith": "v0"},
+    {"fA|contains": ["v5", "v*6"]},
+    {"fB|lt": 5},
+    {"fA|exists": True},
+    {"fA|cased": "v0"},
+    {"fA|re|i": "v0"},
+    [{"fA": "v0", "fB": "v2"}, {"fA": "v1"}],
+    {"fB": [5, "v5"]},
+    {"fA": True},
+    {"fA|contains|all": ["v0", "V9"], "fB": "v0"},
+]
+CONDSX = ["all of d*", "d0 and not d1", "1 of them", "not 1 of d*", "(d0 and d1) or not d0", "all of them"]
+
+
+def pool():
+    return POOL + POOLX if P("X", 0) else POOL
+
+
+def conds():
+    return CONDS + CONDSX if P("X", 0) else CONDS
+
+
 def build_doc(k0, k1, c):
-    return {"title": "t", "logsource": {"category": "cat", "product": "prod"}, "fields": ["fA", "fB"], "detection": {"d0": POOL[k0], "d1": POOL[k1], "condition": CONDS[c]}}
+    return {"title": "t", "logsource": {"category": "cat", "product": "prod"}, "fields": ["fA", "fB"], "detection": {"d0": pool()[k0], "d1": pool()[k1], "condition": conds()[c]}}
 
 
 # ---------------------------------------------------------------- reference rewrites (item level)
@@ -283,6 +308,16 @@ def convert(doc, trans):
     return b.convert_rule(SigmaRule.from_dict(copy.deepcopy(doc)))
 
 
+def has_number(k):
+    d = pool()[k]
+    vals = []
+    for m in d if isinstance(d, list) else [d]:
+        if isinstance(m, dict):
+            for v in m.values():
+                vals.extend(v if isinstance(v, list) else [v])
+    return any(isinstance(v, int) and not isinstance(v, bool) for v in vals)
+
+
 def check(ti: int, k0: int, k1: int, c: int) -> bool:
     name, trans, reffn = TRANS[ti]
     doc = build_doc(k0, k1, c)
@@ -297,7 +332,7 @@ def check(ti: int, k0: int, k1: int, c: int) -> bool:
         # documented failures: converting a non-numeric... none of the instances may fail on these rules
         return False
     if reffn is None:
-        if name == "replace-string-nothing" and is_open("c12-replace-string-number-to-string") and (k0 == 7 or (k1 == 7 and c not in (0, 1))):
+        if name == "replace-string-nothing" and is_open("c12-replace-string-number-to-string") and (has_number(k0) or (has_number(k1) and c not in (0, 1))):
             return True  # known finding: trigger region (rule with a numeric value) skipped
         return out == plain  # identity instance: byte-identical queries
     try:
@@ -319,11 +354,11 @@ def check(ti: int, k0: int, k1: int, c: int) -> bool:
 
 def c12_transform(k0: int, k1: int, c: int) -> bool:
     """
-    pre: 0 <= k0 < len(POOL) and 0 <= k1 < len(POOL)
-    pre: 0 <= c < len(CONDS)
+    pre: 0 <= k0 < len(pool()) and 0 <= k1 < len(pool())
+    pre: 0 <= c < len(conds())
     post: _
     """
-    a, b, cc = sel(k0, len(POOL)), sel(k1, len(POOL)), sel(c, len(CONDS))
+    a, b, cc = sel(k0, len(pool())), sel(k1, len(pool())), sel(c, len(conds()))
     with concrete_section():
         ok = check(P("T", 0), a, b, cc)
     return fin(ok)
@@ -348,7 +383,7 @@ def c12_strict_applied_with_fields() -> bool:
     return "mA_s" in out[0]
 
 
-OBLIGATIONS = [Ob("c12_transform", {"T": t}, 600, note=TRANS[t][0]) for t in range(len(TRANS))]
+OBLIGATIONS = [Ob("c12_transform", {"T": t}, 600, note=TRANS[t][0]) for t in range(len(TRANS))] + [Ob("c12_transform", {"T": t, "X": 1}, 1800, tier="thorough", note=TRANS[t][0] + " (extended pool)") for t in range(len(TRANS))]
 
 SELFCHECKS = [
     ("c12_concrete", {}, (0, 1, 6, 2), True),
